@@ -14,6 +14,7 @@ import (
 	"encoding/json"
 	"fmt"
 	"math/rand"
+	"sort"
 	"strings"
 	"time"
 
@@ -102,6 +103,24 @@ func c13Entry(entry byte, data string) string {
 	panic("entry")
 }
 
+// c13JsonPairs: what json.Unmarshal(bs, &h) leaves in h : map[string]int64 ("-" if it fails), as <hex key>:<value>,... in sorted key order
+func c13JsonPairs(data string) string {
+	h := make(map[string]int64)
+	if err := json.Unmarshal([]byte(data), &h); err != nil {
+		return "-"
+	}
+	keys := make([]string, 0, len(h))
+	for k := range h {
+		keys = append(keys, k)
+	}
+	sort.Strings(keys)
+	out := make([]string, len(keys))
+	for i, k := range keys {
+		out[i] = fmt.Sprintf("%x:%d", k, h[k])
+	}
+	return "=" + strings.Join(out, ",")
+}
+
 var c13Seen = map[string]bool{}
 
 func emitC13(c *ctx, entry byte, data string) {
@@ -131,7 +150,17 @@ func emitC13(c *ctx, entry byte, data string) {
 			}
 		}
 	}
-	c.printf("CASE %c %s | %s\n", entry, hex.EncodeToString([]byte(data)), cls)
+	if entry == 'J' {
+		// the Go-specific part of ai/json.go is modelled (WeightsJson.unmarshal_post): when the text decodes into
+		// map[string]int64 the decoded pairs go to the model (sorted key order), which must give the same class
+		pairs := c13JsonPairs(data)
+		if pairs != "-" {
+			c.stat("json_object_of_integers", 1)
+		}
+		c.printf("CASE %c %s %s | %s\n", entry, hex.EncodeToString([]byte(data)), pairs, cls)
+	} else {
+		c.printf("CASE %c %s | %s\n", entry, hex.EncodeToString([]byte(data)), cls)
+	}
 	if cls == "PANIC" || cls == "HANG" {
 		names := map[byte]string{'M': "ptn-move", 'S': "playtak-move", 'T': "tps", 'F': "ptn-file", 'C': "chat", 'J': "weights-json", 'E': "tei"}
 		kind := strings.ToLower(cls)
@@ -375,6 +404,29 @@ func runC13(c *ctx) {
 	emitC13(c, 'J', string(js))
 	for k := 0; k < 200*c.scale; k++ {
 		emitC13(c, 'J', mutateBytes(r, string(js), "{}\":,0123456789-eE.TopFlatnul[] "))
+	}
+	// objects of integers over the real feature names, the stringer's out-of-range spellings and unknown names
+	var fnames []string
+	for f := ai.Feature(0); f < ai.MaxFeature; f++ {
+		fnames = append(fnames, f.String())
+	}
+	extra := []string{"MaxFeature", ai.MaxFeature.String(), (ai.MaxFeature + 1).String(), ai.Feature(-1).String(), "Feature(0)", "Feature(36)", "topflat", "TopFlat ", "", "Nope", "Tempo\u0000"}
+	for k := 0; k < 150*c.scale; k++ {
+		n := r.Intn(5)
+		var parts []string
+		for i := 0; i < n; i++ {
+			name := fnames[r.Intn(len(fnames))]
+			if r.Intn(6) == 0 {
+				name = extra[r.Intn(len(extra))]
+			}
+			v := []string{"0", "1", "-7", "300", "9223372036854775807", "-9223372036854775808"}[r.Intn(6)]
+			parts = append(parts, fmt.Sprintf("%q:%s", name, v))
+		}
+		emitC13(c, 'J', "{"+strings.Join(parts, ",")+"}")
+	}
+	for _, name := range append(append([]string{}, fnames...), extra...) {
+		emitC13(c, 'J', fmt.Sprintf("{%q:5}", name))
+		emitC13(c, 'J', fmt.Sprintf("{\"TopFlat\":1,%q:5,\"Nope\":2}", name))
 	}
 	for _, s := range []string{"", "{", "{}", "null", "[]", "{\"TopFlat\":1e999}", "{\"TopFlat\":\"x\"}", "{\"Nope\":1}", "{\"TopFlat\":99999999999999999999}", "{\"TopFlat\":1.5}"} {
 		emitC13(c, 'J', s)
